@@ -69,7 +69,7 @@ def status():
                f"(the 172-test suite still passes), {len(finds)} are recorded as known findings (§7).")
     ns = sum(len(v) for v in seeds.values())
     out.append(f"**{ns} seeded breaking changes** produced by independent sub-agents (one or more per property, for {len(seeds)} properties) are stored under `seeded/`; "
-               f"every one of them is now reported as a `VIOLATION` with a concrete failing input, and the checks that missed one at first were strengthened (§8).")
+               f"every one of them is now reported as a `VIOLATION` — with a concrete failing input, except for the few whose only manifestation is inside an instruction that cannot be dispatched in this sandbox (a constraint of a Solend instruction: reported with `no-failing-input-found`, the replay naming the broken theorem) — and the checks that missed one at first were strengthened (§8). The whole stored set is re-run against the current machinery from time to time (`/tmp/vsweep2/reseed.sh`-style loop over `seeded/*/patch.diff`).")
     out.append("")
     out.append("| property | theorems | families (ops/run, quick) | monitors | seeds |")
     out.append("|---|---|---|---|---|")
